@@ -175,9 +175,21 @@ def trace_for(ob, scratch, gb, prop, log):
                         if st.get("stepType") != "assignment" or st.get("hidden"):
                             continue
                         fn = (st.get("sourceLocation") or {}).get("function")
-                        if fn != ob["entry"]:
-                            continue
                         lhs = st.get("lhs")
+                        caps = (ob.get("replay") or {}).get("capture")
+                        if caps:
+                            # configured capture: regexes on the lhs (any function); key = group(1) if present
+                            key = None
+                            for c in caps:
+                                cm = re.search(c, lhs or "")
+                                if cm:
+                                    key = cm.group(1) if cm.groups() else lhs
+                                    break
+                            if key is None:
+                                continue
+                            lhs = key
+                        elif fn != ob["entry"]:
+                            continue
                         v = st.get("value", {})
                         if lhs is None:
                             continue
